@@ -274,6 +274,33 @@ func (w *yieldWriter) Write(p []byte) (int, error) {
 	return len(p), nil
 }
 
+// editVisitor rewrites the nodes of the caller's own tree: variables are renamed, literals replaced.
+type editVisitor struct{}
+
+func (v *editVisitor) Enter(n js.INode) js.IVisitor {
+	sched.Yield(sched.SiteVisit)
+	switch x := n.(type) {
+	case *js.Var:
+		if len(x.Data) > 0 && len(x.Data) < 40 && x.Data[0] != '$' {
+			x.Data = append([]byte("$"), x.Data...)
+		}
+	case *js.LiteralExpr:
+		switch x.TokenType {
+		case js.TrueToken:
+			x.Data = []byte("!0")
+		case js.FalseToken:
+			x.Data = []byte("!1")
+		case js.NullToken:
+			x.Data = []byte("void 0")
+		case js.ThisToken:
+			x.Data = []byte("self")
+		}
+	}
+	return v
+}
+
+func (v *editVisitor) Exit(n js.INode) {}
+
 type recVisitor struct {
 	t     *tr
 	depth int
@@ -510,6 +537,15 @@ func runWorkloadIn(in wlInput, scratch []byte, rec *memRec) (out []byte) {
 			call()
 			js.Walk(&recVisitor{t: t, skip: in.opt >> 2 & 7}, ast)
 			t.add("scope", ast.Scope.String())
+			if in.opt&32 != 0 {
+				// this caller rewrites its own tree in place, as a minifier does (and as the library's
+				// own Walk test does), and prints it again: nobody else's tree may notice
+				call()
+				js.Walk(&editVisitor{}, ast)
+				w3 := &yieldWriter{}
+				ast.JS(w3)
+				t.add("js-after-edit", w3.buf)
+			}
 		}
 	case wlStrconv:
 		call()
